@@ -30,6 +30,9 @@ pub struct ServerLog(pub Vec<(CK, u32, Entity, Option<Entity>)>);
 pub struct SEmitQueue(pub Vec<(SK, u32, SendMode, Option<Entity>)>);
 #[derive(Resource, Default)]
 pub struct DisconnectRequests(pub Vec<Entity>);
+/// Ticks for which the client reported `MutateTickReceived`.
+#[derive(Resource, Default)]
+pub struct TickLog(pub Vec<u32>);
 
 fn client_emit(world: &mut World) {
     let q = std::mem::take(&mut world.resource_mut::<CEmitQueue>().0);
@@ -160,7 +163,17 @@ pub fn make_app(cfg: &Cfg, mismatch: bool) -> App {
         .init_resource::<CEmitLog>()
         .init_resource::<SEmitQueue>()
         .init_resource::<MismatchSeen>()
-        .init_resource::<DisconnectRequests>();
+        .init_resource::<DisconnectRequests>()
+        .init_resource::<TickLog>();
+    app.add_systems(
+        PreUpdate,
+        (|mut r: EventReader<bevy_replicon::client::server_mutate_ticks::MutateTickReceived>, mut log: ResMut<TickLog>| {
+            for e in r.read() {
+                log.0.push(e.tick.get());
+            }
+        })
+        .after(ClientSet::Receive),
+    );
     app.add_systems(Update, (client_emit, server_emit));
     app.add_systems(
         PreUpdate,
